@@ -148,6 +148,8 @@ structure Inv (s : St) : Prop where
   idxOk : ∀ t id idx g, (s.thr t = .rPub id idx g ∨ s.thr t = .rCan id idx g) → idx = id % s.N ∧ g % s.N = idx
   chkOk : ∀ t h w, s.thr t = .cChkTail h w → h ≤ s.head ∧ (w = false → h < s.tail)
   recOk : ∀ t v id rsv w, s.thr t = .pRecede v id rsv w → w = true
+  /-- a producer measuring the length after its publication: its sequence number is below `tail` -/
+  lenOk : ∀ t id, s.thr t = .pLen id → id < s.tail
 
 /-- default per-field tactics; `h : Inv s`, `t` the stepping thread -/
 macro "ring_fields" h:term:max t:term:max : tactic => `(tactic| (
@@ -169,7 +171,8 @@ macro "ring_fields" h:term:max t:term:max : tactic => `(tactic| (
   try (case relOk => intro u id v; have := Inv.relOk $h u id v; grind)
   try (case idxOk => intro u id idx g; have := Inv.idxOk $h u id idx g; grind)
   try (case chkOk => intro u h' w; have := Inv.chkOk $h u h' w; grind)
-  try (case recOk => intro u v id rsv w; have := Inv.recOk $h u v id rsv w; grind)))
+  try (case recOk => intro u v id rsv w; have := Inv.recOk $h u v id rsv w; grind)
+  try (case lenOk => intro u id; have := Inv.lenOk $h u id; grind)))
 
 
 /-! ## one case per program point -/
@@ -375,6 +378,10 @@ theorem step_inv_lLen (s : St) (t : Nat) (h : Inv s) (ht : s.thr t = .lLen) :
   simp only [step, ht]
   ring_fields h t
 
+theorem step_inv_pLen (s : St) (t id : Nat) (h : Inv s) (ht : s.thr t = .pLen id) :
+    Inv (step s t) := by
+  simp only [step, ht]
+  ring_fields h t
 
 /-! ## all of `step`, `apply`, `run` -/
 
@@ -399,6 +406,7 @@ theorem step_inv (s : St) (t : Nat) (h : Inv s) (hex : CanExact s (.step t)) : I
   | pRecede v id rsv w => exact step_inv_pRecede s t v id rsv w h hl
   | pWrite v id len => exact step_inv_pWrite s t v id len h hl
   | pPublish v id len => exact step_inv_pPublish s t v id len h hl
+  | pLen id => exact step_inv_pLen s t id h hl
   | rPub id idx g => exact step_inv_rPub s t id idx g h hl
   | rCan id idx g => exact step_inv_rCan s t id idx g h hl (hex t id idx g rfl hl)
   | cFetch => exact step_inv_cFetch s t h hl
